@@ -7,7 +7,10 @@ import (
 	"math"
 	"math/big"
 	"math/rand"
+	"reflect"
+	"sync"
 	"testing"
+	"unsafe"
 
 	kit "verifkit"
 
@@ -241,6 +244,111 @@ func TestC04Interleaved(t *testing.T) {
 	})
 }
 
+// ---------------------------------------------------------------- C04 (1c): iterators constructed and walked concurrently
+//
+// The ports goroutine and the per-port address iterators construct and walk iterators at the same time.
+
+type c04ConcCase struct {
+	Sizes  []int64 `json:"sizes_per_goroutine"` // goroutine g keeps constructing and walking iterators of Sizes[g] (and Sizes[g]/2+1 alternately)
+	Rounds int     `json:"walks_per_goroutine"`
+}
+
+func TestC04Concurrent(t *testing.T) {
+	kit.Run(t, kit.Spec[c04ConcCase]{
+		Prop: "C04",
+		Rule: "2..16 goroutines, each constructing and completely walking 20..400 iterators (or 2000..10000 iterators of tiny sizes 1..40) of its own sizes (n and n/2+1 alternately, n in 1..3000, equal and different sizes across goroutines) at the same time (global math/rand source, as in sx); oracle per walk: a permutation of 1..n. non-trivial: >=2 goroutines with different sizes; distinct by case",
+		Gen: func(t *rapid.T) c04ConcCase {
+			g := rapid.SampledFrom([]int{2, 4, 8, 16}).Draw(t, "goroutines")
+			c := c04ConcCase{Rounds: rapid.SampledFrom([]int{20, 100, 400}).Draw(t, "rounds")}
+			hammer := rapid.Bool().Draw(t, "tiny-sizes-many-walks")
+			for i := 0; i < g; i++ {
+				if hammer {
+					c.Sizes = append(c.Sizes, int64(rapid.SampledFrom([]int{1, 2, 3, 40}).Draw(t, "n")))
+				} else {
+					c.Sizes = append(c.Sizes, int64(rapid.SampledFrom([]int{1, 2, 3, 5, 40, 41, 255, 256, 257, 1000, 3000}).Draw(t, "n")))
+				}
+			}
+			if hammer {
+				c.Rounds = rapid.SampledFrom([]int{2000, 10000}).Draw(t, "rounds-hammer")
+			}
+			return c
+		},
+		Check: func(c c04ConcCase) *kit.Verdict {
+			v := &kit.Verdict{Units: len(c.Sizes) * c.Rounds}
+			errs := make(chan error, len(c.Sizes))
+			var wg sync.WaitGroup
+			for _, n := range c.Sizes {
+				n := n
+				wg.Add(1)
+				go func() {
+					defer wg.Done()
+					for r := 0; r < c.Rounds; r++ {
+						m := n
+						if r%2 == 1 {
+							m = n/2 + 1
+						}
+						it, err := newRangeIterator(m)
+						if err != nil {
+							errs <- fmt.Errorf("n=%d rejected: %v", m, err)
+							return
+						}
+						l := &c04Live{n: m, it: it, seen: make([]bool, m)}
+						if err := l.take(int(m)+2, 0); err != nil {
+							errs <- fmt.Errorf("while %d goroutines were constructing iterators: %v", len(c.Sizes), err)
+							return
+						}
+						if l.count != m {
+							errs <- fmt.Errorf("while %d goroutines were constructing iterators: n=%d: iteration stopped after %d values", len(c.Sizes), m, l.count)
+							return
+						}
+					}
+				}()
+			}
+			wg.Wait()
+			close(errs)
+			for e := range errs {
+				v.Err = e
+				return v
+			}
+			for _, n := range c.Sizes {
+				if n != c.Sizes[0] {
+					v.NonTrivial = true
+				}
+			}
+			return v
+		},
+	})
+}
+
+// c04BigField reads a *big.Int (or integer) field of the iterator by name
+func c04BigField(it interface{}, name string) (*big.Int, bool) {
+	rv := reflect.ValueOf(it)
+	for rv.Kind() == reflect.Ptr || rv.Kind() == reflect.Interface {
+		if rv.IsNil() {
+			return nil, false
+		}
+		rv = rv.Elem()
+	}
+	if rv.Kind() != reflect.Struct {
+		return nil, false
+	}
+	f := rv.FieldByName(name)
+	if !f.IsValid() {
+		return nil, false
+	}
+	switch f.Kind() {
+	case reflect.Int, reflect.Int64, reflect.Int32:
+		return big.NewInt(f.Int()), true
+	case reflect.Uint, reflect.Uint64, reflect.Uint32:
+		return new(big.Int).SetUint64(f.Uint()), true
+	case reflect.Ptr:
+		if f.Type() == reflect.TypeOf((*big.Int)(nil)) && !f.IsNil() && f.CanAddr() {
+			return *(**big.Int)(unsafe.Pointer(f.UnsafeAddr())), true
+		}
+	}
+	return nil, false
+}
+
 // full walks of the large groups (thorough tier): n = 2^k and n = P-1
 func TestC04FullWalk(t *testing.T) {
 	m := kit.NewManual(t, "C04", "one full walk of the iterator per listed size (sizes given by the driver in C04_WALK as k: n=2^k, or pK: n=P-1 of row K), bitmap oracle; non-trivial always")
@@ -355,17 +463,23 @@ func c04CheckTable(c c04TableCase) *kit.Verdict {
 	if err != nil {
 		return v.Failf("n=%d (row %d) rejected: %v", c.N, c.Row, err)
 	}
-	if it.P.Cmp(P) != 0 {
-		return v.Failf("n=%d: iterator uses P=%s, smallest table prime above n is %d", c.N, it.P, row.P)
+	// white-box part, through reflection: if the iterator's representation changes these three are skipped
+	// (and the case is labelled), the black-box part below still runs
+	itP, okP := c04BigField(it, "P")
+	itG, okG := c04BigField(it, "G")
+	itLimit, okL := c04BigField(it, "rangeLimit")
+	if !okP || !okG || !okL {
+		v.Label("iterator-representation-changed")
 	}
-	if !c04IsGenerator(it.G, P, fs) {
-		return v.Failf("n=%d seed=%d: iterator's G=%s does not generate (Z/%d)*", c.N, c.Seed, it.G, row.P)
+	if okP && itP.Cmp(P) != 0 {
+		return v.Failf("n=%d: iterator uses P=%s, smallest table prime above n is %d", c.N, itP, row.P)
 	}
-	ea := new(big.Int).Exp(big.NewInt(row.N), new(big.Int).Add(big.NewInt(a), big.NewInt(1)), pm1)
-	wantG := new(big.Int).Exp(big.NewInt(row.G), ea, P)
-	_ = wantG // the exact derivation of G' is an implementation choice; only its being a generator is required
-	if it.rangeLimit.Cmp(big.NewInt(c.N)) != 0 {
-		return v.Failf("n=%d: range limit %s", c.N, it.rangeLimit)
+	if okG && !c04IsGenerator(itG, P, fs) {
+		return v.Failf("n=%d seed=%d: iterator's G=%s does not generate (Z/%d)*", c.N, c.Seed, itG, row.P)
+	}
+	_ = a
+	if okL && itLimit.Cmp(big.NewInt(c.N)) != 0 {
+		return v.Failf("n=%d: range limit %s", c.N, itLimit)
 	}
 	cur := it.Int()
 	if cur.Sign() <= 0 || cur.Cmp(big.NewInt(c.N)) > 0 {
